@@ -82,6 +82,7 @@ def params_from_cmd(config: Params) -> None:
     param_dict = {}
     # the tests string includes the test restrictions while the vm strings include the ones for the vm variants
     tests_str, nets_str, vm_strs = "", "", {vm: "" for vm in available_vms}
+    explicit_nets = False
 
     # main tokenizing loop
     for cmd_param in config["params"]:
@@ -104,6 +105,11 @@ def params_from_cmd(config: Params) -> None:
             tests_str += "%s %s\n" % (key, value)
         elif key.startswith("only_") or key.startswith("no_"):
             if re.fullmatch("(only|no)_nets", key):
+                if explicit_nets:
+                    raise ValueError(
+                        f"Cannot specify a nets restriction {value} together with "
+                        f"explicit net suffixes '{param_dict['nets']}'"
+                    )
                 nets_str = (
                     "%s %s\n" % (key.replace("_nets", ""), value) if value else ""
                 )
@@ -147,6 +153,7 @@ def params_from_cmd(config: Params) -> None:
                 )
             value = value.replace(",", " ")
             param_dict[key] = value
+            explicit_nets = True
         else:
             # NOTE: comma on the command line is space in a config file
             value = value.replace(",", " ")
